@@ -49,7 +49,7 @@ def one_acquire_one_release(ctx):
            'when building/submitting the request fails the permit is never released and the subscribers never hear about it')
     cn = (q.names_defined_by(f, lambda v: isinstance(v, ast.Call) and norm(v.func) == 'CRTTransferCoordinator') or ['coordinator'])[0]
     rec = [c for s in h.body for c in ast.walk(s) if isinstance(c, ast.Call) and (dotted(c.func) or '') == f'{cn}.set_exception']
-    ctx.ob(f, 'handler records the error on the coordinator before on_done', len(rec) == 1 and norm(rec[0].args[0]) == h.name and bool(called) and rec[0].lineno < called[0].lineno, 'result() would not raise')
+    ctx.ob(f, 'handler records the error on the coordinator before on_done', len(rec) == 1 and norm(rec[0].args[0]) == h.name and bool(called) and rec[0]._pos < called[0]._pos, 'result() would not raise')
     mk = [c for c in own_calls(f.node) if (dotted(c.func) or '').endswith('get_make_request_args')]
     ok = len(mk) == 1 and AL in [norm(a) for a in mk[0].args] + [norm(k.value) for k in mk[0].keywords]
     ctx.ob(f, 'normal path: get_make_request_args(..., on_done_after_calls)', ok, 'the CRT on_done callback would not release the permit')
@@ -93,11 +93,11 @@ def callback_composition_order(ctx):
     lps = [l for l in own_nodes(f.node) if isinstance(l, ast.For) and isinstance(l.iter, ast.Name)]
     CL = norm(lps[0].iter) if len(lps) == 1 else 'callbacks_list'
     adds = [n for n in own_nodes(f.node) if isinstance(n, ast.AugAssign) and norm(n.target) == CL]
-    seq = [norm(n.value) for n in sorted(adds, key=lambda n: n.lineno)]
+    seq = [norm(n.value) for n in sorted(adds, key=lambda n: n._pos)]
     ok = seq == ['before_subscribers', 'get_callbacks(future, callback_type)', 'after_subscribers']
     if ok:
-        a, b, c = [g.nodes_of(n) for n in sorted(adds, key=lambda n: n.lineno)]
-        ok = g.all_dominate(b, c, g.NORMAL) and not (g.reach(b, labels=g.NORMAL) & set(a)) and not q.guards(sorted(adds, key=lambda n: n.lineno)[1])
+        a, b, c = [g.nodes_of(n) for n in sorted(adds, key=lambda n: n._pos)]
+        ok = g.all_dominate(b, c, g.NORMAL) and not (g.reach(b, labels=g.NORMAL) & set(a)) and not q.guards(sorted(adds, key=lambda n: n._pos)[1])
     ctx.ob(f, 'callbacks_list = before + subscribers + after', ok, f'on_done subscribers must run after the rename and before the permit release / done handler: {seq}')
     init = [v for st, v in q.local_defs(f, CL) if isinstance(st, ast.Assign) and isinstance(v, ast.AST)]
     ctx.ob(f, 'callbacks_list starts empty', len(init) == 1 and norm(init[0]) == '[]', f'{[norm(v) for v in init]}')
